@@ -46,6 +46,21 @@ CHECKS = {
         note="Trusted: one failing operation per run; failures induced via closed descriptors / hidden directory / "
              "corrupted run; directory listing after each call; CleanUp only at quiescence.",
         ref="DESIGN.md §6 C13"),
+    "C19": dict(
+        technique="TLC exhaustive interleaving check of worker-pool and promise process models; TLC-simulated "
+                  "schedules forced through verif hooks; steered executions validated by a TLC search over the "
+                  "model's internal steps; race detector on un-gated runs",
+        text="Processor.tla (workers, submitter, reader over the queue/result/token channels at hook granularity) and "
+             "Promise.tla (mailbox + mutex + condition variable, one process per Fulfill/Fail/Wait call) are explored "
+             "exhaustively: no panic, result channel closed exactly once and only after every worker left, "
+             "exactly-once results, termination; single assignment, waits agree, no call blocks for ever; the as-found "
+             "variants are refuted. Simulated Processor schedules are executed deterministically on the real code in "
+             "a child process; steered Promise executions (goroutines held and released at the hooks) are accepted only "
+             "if PromiseTrace.tla finds a model behaviour with exactly these observations; Map's chunks must "
+             "partition the input.",
+        note="Trusted: atomicity of hook-to-hook segments, goroutine identity via runtime.Stack, timing margins for "
+             "'blocked' claims, non-nil fulfil values, relay promises judged on value only.",
+        ref="DESIGN.md §6 C19"),
 }
 
 NOT_YET = {}
